@@ -14,7 +14,7 @@ THEOREMS = [
     'Lcdb.crc_detects_single_byte', 'Lcdb.crcExtend_append',
     'Lcdb.ConstsOk.logBlockSize_ok', 'Lcdb.ConstsOk.logHeaderSize_ok', 'Lcdb.ConstsOk.recTypes_ok', 'Lcdb.ConstsOk.crcMask_ok',
     'Lcdb.CrcTablesOk.byteExtTable_ok', 'Lcdb.CrcTablesOk.strideTables_ok',
-    # pending: 'Lcdb.C15.write_compositional', 'Lcdb.C15.read_write', 'Lcdb.C15.read_truncated', 'Lcdb.C15.read_sound',
+    'Lcdb.C15.write_compositional', 'Lcdb.C15.write_reuse', 'Lcdb.C15.read_write', 'Lcdb.C15.read_truncated', 'Lcdb.C15.read_sound', 'Lcdb.C15.addRecord_offset', 'Lcdb.C15.blockOffset_le',
 ]
 IMPORTS = ['LcdbModel.Props.C15']
 TARGETS = ['LcdbModel.Props.C15']
